@@ -277,7 +277,7 @@ def long_run_task(tier, seed):
     part.program("runtime")
     part.fn("runtime.ManagedFilter.tick", "runtime.ManagedFilter._process_model", "ManagedFilter::processUpdate")
     rng = random.Random(seed + 5)
-    cases = [(100000.0, 60.0, 0.1), (250000.0, 10.0, 0.01), (-131072.5, 25.0, 0.05), (1000000.0, 12.5, 0.025)]
+    cases = [(100000.0, 60.0, 0.1), (250000.0, 10.0, 0.01), (1000.0, 12.5, 0.001), (-131072.5, 25.0, 0.05), (1000000.0, 12.5, 0.025)]
     if tier != "quick":
         cases += [(86400.0 * 30, 30.0, 0.1), (65536.0, 100.0, 1.0 / 30.0), (3.0e5, 7.0, 0.007)]
     for t0, span, md in cases:
@@ -295,7 +295,7 @@ def long_run_task(tier, seed):
         from . import c10_cpp
     except ImportError:
         return part.d
-    for t0, span, md in cases[:2] if tier == "quick" else cases[:5]:
+    for t0, span, md in cases[:3] if tier == "quick" else cases[:6]:
         for sign in (1.0, -1.0):
             t1 = t0 + sign * (span + 0.375 * md)
             key = f"long-run/cpp/t0={t0}/span={sign * span}/max_dt={md}"
